@@ -95,6 +95,9 @@ def run(ctx):
         prog = ctx.prog(cfg)
         mod = ctx.mod(cfg)
         _txn(ctx, cfg, prog, mod)
+    if ctx.tier == 'thorough':
+        import c05
+        c05._witness(ctx)
     return ctx.finish(EXPLANATION)
 
 
